@@ -446,6 +446,16 @@ def check(case):
     return outcome(True, "values-equal", nontrivial=nontrivial)
 
 
+def _acyclic(n, adj):
+    left = set(range(n))
+    while left:
+        free = [i for i in left if not any(adj >> (i * n + j) & 1 for j in left)]
+        if not free:
+            return False
+        left.difference_update(free)
+    return True
+
+
 def generate(tier):
     """Yield batches of cases (lists), simplest first."""
     cases = []
@@ -464,6 +474,17 @@ def generate(tier):
                     if not any(miss):
                         continue
                     cases.append({"n": n, "adj": adj, "perm": perm, "kinds": "d" * n, "miss": list(miss)})
+    if tier != "thorough":
+        # every ACYCLIC graph on 4 components in every declaration order (quick; thorough has all 65536 graphs):
+        # e.g. two consumers waiting for the same provider that is declared after them and itself waits for a third
+        n = 4
+        perms = [list(p) for p in it.permutations(range(n))]
+        for adj in range(2 ** (n * n)):
+            if not _acyclic(n, adj):
+                continue
+            for perm in perms:
+                for kinds in ("dddd", "drpv"):
+                    cases.append({"n": n, "adj": adj, "perm": perm, "kinds": kinds})
     if tier == "thorough":
         n = 4
         perms = [list(p) for p in it.permutations(range(n))]
@@ -481,7 +502,9 @@ def generate(tier):
         tree = sum(1 << (i * n + j) for i in range(n) for j in (2 * i + 1, 2 * i + 2) if j < n)
         cross = chain | (1 << (0 * n + (n - 1)))                                         # chain + shortcut edge
         cyc = chain | (1 << ((n - 1) * n + 0))                                           # n-cycle
-        for adj in (chain, tree, cross, cyc):
+        intree = sum(1 << (i * n + (i - 1) // 2) for i in range(1, n))                   # everyone names its parent
+        fan = sum(1 << (i * n + 1) for i in range(2, n)) | (1 << (1 * n + 0))            # all name n1, n1 names n0
+        for adj in (chain, tree, cross, cyc, intree, fan):
             for perm in it.permutations(range(n)):
                 cases.append({"n": n, "adj": adj, "perm": list(perm), "kinds": ("drpv" * 2)[:n] if n % 2 else "d" * n})
     for variant in ("base", "chain", "own", "loop", "loop3", "names-surrogate", "names-surrogate-and-missing", "surrogate-names-itself"):
